@@ -60,6 +60,17 @@ def zip_columns(fn: Func, g, n, a: ast.expr, b: ast.expr) -> Optional[Tuple[ast.
                     out.append((st, names.index(inner.id), st.value.args[0].value, d))
             elif isinstance(st, ast.Assign) and isinstance(st.value, ast.Tuple) and all(isinstance(x, ast.Tuple) and not x.elts for x in st.value.elts):
                 continue  # the `else: paths, oids = (), ()` arm
+            elif isinstance(st, (ast.Assign, ast.AnnAssign)) and st.value is not None:
+                # projection of one column by a comprehension:  xs = [x for x, _ in rows]
+                v = st.value
+                if isinstance(v, ast.Call) and call_name(v) in ("list", "tuple") and len(v.args) == 1:
+                    v = v.args[0]
+                if isinstance(v, (ast.ListComp, ast.GeneratorExp)) and len(v.generators) == 1 and not v.generators[0].ifs and isinstance(v.generators[0].target, (ast.Tuple, ast.List)) and isinstance(v.elt, ast.Name):
+                    names = [norm(t) for t in v.generators[0].target.elts]
+                    if v.elt.id in names:
+                        out.append(("proj:" + norm(v.generators[0].iter), names.index(v.elt.id), v.generators[0].iter, d))
+                        continue
+                return None
             else:
                 return None
         return out
@@ -67,7 +78,11 @@ def zip_columns(fn: Func, g, n, a: ast.expr, b: ast.expr) -> Optional[Tuple[ast.
     ca, cb = col(a), col(b)
     if not ca or not cb:
         return None
-    if ca[0][0] is not cb[0][0]:
+    ka, kb = ca[0][0], cb[0][0]
+    if isinstance(ka, str) or isinstance(kb, str):
+        if ka != kb:
+            return None
+    elif ka is not kb:
         return None
     return ca[0][2], ca[0][1], cb[0][1], ca[0][3]
 
